@@ -2,7 +2,7 @@
    Theorems about Model/SemModel.v after the repair of finding F1 (a deadline before the epoch is
    clamped to the epoch before the futex call).  Statements only; proofs in Proof/SemProof.v. *)
 From NsyncBase Require Import CSem.
-From NsyncGen Require Import Consts Sites.
+From NsyncGen Require Import Consts Sites Time.
 From NsyncModel Require Import SemModel.
 From NsyncProof Require Import SemProof.
 From Coq Require Import List ZArith.
@@ -15,24 +15,34 @@ Theorem C15_no_crash : forall prog posts clock0 sched,
   prog_ok prog -> owner (run (init prog posts clock0) sched) <> OCrash.
 Proof. exact no_crash_reachable. Qed.
 
-(* ETIMEDOUT is never reported before the deadline *)
+(* ETIMEDOUT is never reported before the deadline (same statement as C12_timeout_sound).  The model READS the
+   clock in one step (value rd, logged) and compares it with the deadline in a LATER step (translated
+   nsync_time_cmp of Gen/Time.v): every call in the log of returns that reported ETIMEDOUT had a deadline d of the
+   program with  cmp (d, rd) <= 0  for a value rd read from the clock during that call (between its first step and
+   now); for a normalized d that is  d <= rd <= clock  as instants.  No hypothesis on the program. *)
 Theorem C15_no_early_timeout : forall prog posts clock0 sched,
-  early (run (init prog posts clock0) sched) = 0.
+  let w := run (init prog posts clock0) sched in
+  forall e rd, In e (rets w) -> ce_res e = ResTimedOut rd ->
+  exists d, ce_arg e = Some d /\ In (Some d) prog /\
+    nsync_time_cmp (to_ts d) (to_ts rd) <= 0 /\ normalized rd /\
+    ce_begin e <= tm_ns rd <= clock w /\
+    (normalized d -> tm_ns d <= tm_ns rd).
 Proof. exact timeout_sound_reachable. Qed.
 
 (* an already expired deadline (also one before the epoch: the clamped timespec {0,0} has
-   tm_ns = 0 <= clock) yields the timeout result within 3 own steps when no post is available *)
+   tm_ns = 0 <= clock) yields the timeout result within 4 own steps when no post is available
+   (load, futex wait, clock read, comparison of the value read with the deadline) *)
 Theorem C15_expired_prompt : forall prog posts clock0 sched d,
   total_posts posts < 2 ^ 31 -> prog_ok prog ->
   let w := run (init prog posts clock0) sched in
   (owner w = TLoad d \/ owner w = TFutex d) -> word w = 0 -> is_no_deadline d = false ->
   tm_ns d <= clock w -> 0 <= clock w ->
-  exists n, (n <= 3)%nat /\
+  exists n, (n <= 4)%nat /\
     let w' := run w (repeat (Owner, CNormal) n) in owner w' = OIdle /\ SemModel.last w' = RTimedOut.
 Proof. exact expired_prompt_reachable. Qed.
 
 Example C15_pre_epoch_times_out :
-  let w := run (init [Some (mk_tm (-5) 999999999)] [] 1000) (repeat (Owner, CNormal) 3) in
+  let w := run (init [Some (mk_tm (-5) 999999999)] [] 1000) (repeat (Owner, CNormal) 4) in
   owner w = OIdle /\ SemModel.last w = RTimedOut.
 Proof. exact pre_epoch_times_out. Qed.
 
